@@ -109,6 +109,30 @@ struct Local {
   }
 };
 
+// A future that is completed by a coroutine reaching its end (final-suspend / symmetric-transfer path of the library)
+// instead of by Promise::Set: its awaiter is resumed through Next(), not through Call()/Here().
+yaclib::Future<int> Feeder(yaclib::Future<int> gate) {
+  co_await yaclib::Await(gate);
+  co_return std::move(gate).Touch();
+}
+
+// co_return of an lvalue that is not a local: the value is copied into the Result and the copy throws
+struct Bomb {
+  int x = 0;
+  Bomb() = default;
+  Bomb(const Bomb&) {
+    throw Boom{77};
+  }
+  Bomb(Bomb&&) noexcept = default;
+  Bomb& operator=(const Bomb&) = default;
+  Bomb& operator=(Bomb&&) noexcept = default;
+};
+const Bomb kBomb;
+template <typename Ret>
+Ret CopyOut(const Bomb& b) {
+  co_return b;
+}
+
 yaclib::Task<int> InnerTask(int x) {
   co_return x + 1;
 }
@@ -242,10 +266,28 @@ Ret Script(World& w, std::vector<Rec> recs, int first_fut, int id) {
           }
           break;
         case kInnerTask: {
-          const int v = co_await InnerTask(r.a);
+          int v = 0;
+          if (r.b % 4 == 0) {
+            v = co_await InnerTask(r.a);
+          } else if (r.b % 4 == 1) {
+            auto t = InnerTask(r.a);
+            co_await yaclib::Await(t);
+            v = std::move(t).Touch().Ok();
+          } else {
+            // Await(task) on an lvalue: the Task completes in place, its Result is read through the handle and the
+            // completed Task is destroyed at the end of the scope (one core for b%4==2, a two-core chain for 3)
+            auto t = r.b % 4 == 2 ? InnerTask(r.a) : InnerTask(r.a - 1).ThenInline([](int x) {
+              return x + 1;
+            });
+            co_await yaclib::Await(t);
+            if (!t.Ready()) {
+              w.Err("Await(task) resumed before the Task completed");
+            }
+            v = std::as_const(t).Touch().Ok();
+          }
           ++w.resumes;
           if (v != r.a + 1) {
-            w.Err("co_await Task returned a wrong value");
+            w.Err("co_await Task / Await(task) returned a wrong value");
           }
           break;
         }
@@ -308,6 +350,20 @@ Ret Script(World& w, std::vector<Rec> recs, int first_fut, int id) {
         }
         default:
           ++w.resumes;
+          // "co_return and escaping exceptions become the coroutine's own Result": either the script throws, or it
+          // awaits a coroutine (Future / Task / SharedFuture) whose co_return copies a value and that copy throws
+          if (r.b % 4 == 1) {
+            (void)co_await CopyOut<yaclib::Future<Bomb>>(kBomb);
+            w.Err("co_return of a value whose copy throws did not become the Exception state (Future)");
+          } else if (r.b % 4 == 2) {
+            (void)co_await CopyOut<yaclib::Task<Bomb>>(kBomb);
+            w.Err("co_return of a value whose copy throws did not become the Exception state (Task)");
+          } else if (r.b % 4 == 3) {
+            auto sf = CopyOut<yaclib::SharedFuture<Bomb>>(kBomb);
+            if (sf.Get().State() != yaclib::ResultState::Exception) {
+              w.Err("co_return of a value whose copy throws did not become the Exception state (SharedFuture)");
+            }
+          }
           throw Boom{77};
       }
       // A plain (inline) await that actually suspended makes the coroutine inherit the awaited core's executor, like a
@@ -431,7 +487,8 @@ class Coro final : public vf::Family {
     for (int i = 0; i < k; ++i) {
       s += std::string(kRet[(c.H(3) / (i == 0 ? 1 : i == 1 ? 3 : 9)) % 3]) + " ";
     }
-    s += "] ready_mask=" + std::to_string(c.H(1)) + " outcome_seed=" + std::to_string(c.H(2)) + " scripts=[";
+    s += "] ready_mask=" + std::to_string(c.H(1)) + " outcome_seed=" + std::to_string(c.H(2)) +
+         " futures=" + (c.H(4) % 3 == 0 ? "contracts" : c.H(4) % 3 == 1 ? "completed-by-coroutines" : "mixed") + " scripts=[";
     for (std::size_t i = 0; i < c.Records(); ++i) {
       const int* r = c.Rec(i);
       s += std::string(i != 0 ? " " : "") + "c" + std::to_string(r[0] % k) + ":" + kKindName[r[1] % kKindN];
@@ -485,7 +542,8 @@ class Coro final : public vf::Family {
       w.fut.resize(static_cast<std::size_t>(total));
       for (int i = 0; i < total; ++i) {
         auto [f, p] = yaclib::MakeContract<int>();
-        w.fut[static_cast<std::size_t>(i)] = std::move(f);
+        const int feeder = c.H(4) % 3;  // 0: plain contracts, 1: every future ends a coroutine, 2: the odd ones do
+        w.fut[static_cast<std::size_t>(i)] = feeder == 1 || (feeder == 2 && i % 2 == 1) ? Feeder(std::move(f)) : std::move(f);
         ps_[static_cast<std::size_t>(i)] = std::move(p);
         const int o = (oseed >> (2 * (i % 6))) & 3;
         w.outcome[static_cast<std::size_t>(i)] = o == 3 ? 1 : o == 2 ? 2 : 0;  // mostly values
